@@ -11,7 +11,7 @@ import itertools
 
 import numpy as np
 
-from vf.checks import c03
+from vf.checks import c03, c11x
 from vf.core import cas, common
 from vf.ref import expr as X
 from vf.ref import mast as M
@@ -26,9 +26,21 @@ _CFG = {}
 PRIMES = [2.5, -1.5, 3.25, 0.75, -2.25, 1.75, 4.5, -0.5, 5.5, -3.75, 6.25, 0.25, -4.25, 7.5, 1.25, -5.75, 8.25, 2.75, -6.5, 9.5]
 
 
-def values_for(model, point, seed):
+def _wide(i):
+    """PRIMES continued without repetition (4 rounds, each shifted by a further sixteenth): all-distinct values for wide models."""
+    return PRIMES[i % len(PRIMES)] + ((i // len(PRIMES)) % 4) / 16.0
+
+
+def values_for(model, point, seed, pins=None, wide=False):
     """env for one grid point: distinct non-integer values of both signs per scalar / array element,
-    Booleans from the bits of `point`, parameters and constants from their declarations."""
+    Booleans from the bits of `point`, parameters and constants from their declarations.
+    pins: {name: value} fixed afterwards; wide: Real values do not repeat within the first 80 elements."""
+    env = _values_for(model, point, seed, _wide if wide else (lambda i: PRIMES[i % len(PRIMES)]))
+    env.update(pins or {})
+    return env
+
+
+def _values_for(model, point, seed, prime):
     env = {}
     tie = point == 1
     k = (point * 7 + seed * 3) % len(PRIMES)
@@ -49,7 +61,7 @@ def values_for(model, point, seed):
         elif tie:
             vals = [1.5] * n  # the tie point: every Real equal, so <, <=, ==, <> and min/max part company
         else:
-            vals = [PRIMES[(k + i) % len(PRIMES)] for i in range(n)]
+            vals = [prime(k + i) for i in range(n)]
             k += n
         env[d.name] = np.array(vals).reshape(dims) if dims else vals[0]
         # a value for the derivative too (used only if the variable turns out to be differentiated)
@@ -253,10 +265,54 @@ def fam_functions(tier):
     return out
 
 
-FAMILIES = [fam_scalar, fam_arrays, fam_for, fam_if, fam_initial_der, fam_functions]
+FAMILIES = [fam_scalar, fam_arrays, fam_for, fam_if, fam_initial_der, fam_functions, c11x.fam_chains, c11x.fam_matrix, c11x.fam_matrix_power]
 
 
 # ---- checking ---------------------------------------------------------------------------------------------
+
+
+def segments(eqs, env, funcs):
+    """One (values, ordered) pair per top-level equation.  A plain equation whose two sides have the same shape under
+    Modelica semantics is lhs - rhs element by element, in column-major order (the layout of every array in the
+    model's variable vectors and of veccat, which builds the residual vector): ordered = True.  For-equations,
+    if-equations and tuple equations stay multisets (the unrolling order is incidental).  values = None with the
+    length in its place when the reference is undefined for that equation at this point."""
+    out = []
+    for e in eqs:
+        if e[0] == "eq" and e[1][0] != "tuple":
+            sides = []
+            for side in (e[1], e[2]):
+                try:
+                    sides.append(np.asarray(M.evn(side, env, funcs), dtype=float))
+                except X.Undefined:
+                    sides.append(None)
+            l, r = sides
+            if l is None and r is None:
+                raise X.Undefined()
+            if l is None or r is None:
+                out.append((None, (r if l is None else l).size))
+                continue
+            if l.shape == r.shape:
+                out.append(((l - r).flatten(order="F"), True))
+                continue
+        out.append((M.residuals([e], env, funcs)[0], False))
+    return out
+
+
+def same_ordered(a, b, rtol=1e-9):
+    a, b = np.asarray(a, dtype=float).ravel(), np.asarray(b, dtype=float).ravel()
+    if a.shape != b.shape:
+        return False
+    return bool(np.all(np.abs(a - b) <= rtol * np.maximum(1.0, np.maximum(np.abs(a), np.abs(b)))))
+
+
+def model_points(model, seed, npoints):
+    """The grid of one model: [(point index, pins)].  Models of the chain families carry the variable their conditions
+    test; it is pinned to every region between the thresholds and to every threshold, one grid point each."""
+    var = getattr(model, "pin_var", None)
+    if var is None:
+        return [(p, None) for p in range(npoints)]
+    return [(p, {var: v}) for p, v in enumerate(c11x.chain_pins(seed))]
 
 
 def check_model(job):
@@ -273,13 +329,18 @@ def check_model(job):
     funcs = {f.name: f for f in model.funcs}
     viol = []
     points = 0
-    for p in range(npoints):
-        env = values_for(model, p, seed)
+    stats = {"ordered": 0, "overlap": 0, "overlap_chains": set(), "skipped": 0, "asym": 0}
+    for p, pins in model_points(model, seed, npoints):
+        env = values_for(model, p, seed, pins=pins, wide=getattr(model, "wide", False))
+        for j, conds in enumerate(getattr(model, "chains", ())):
+            if sum(1 for c in conds if M.evn(c, env, funcs) != 0) >= 2:
+                stats["overlap"] += 1
+                stats["overlap_chains"].add(j)
         for initial, eqs in ((False, model.eqs), (True, model.init_eqs)):
             if initial and not eqs:
                 continue
             try:
-                segs = M.residuals(eqs, env, funcs)
+                segs = segments(eqs, env, funcs)
             except X.Undefined:
                 continue
             try:
@@ -288,21 +349,36 @@ def check_model(job):
                 viol.append(("residual-eval-raises:%s" % fam, "cannot evaluate residual: %r\n%s" % (e, text), {"text": text}))
                 break
             points += 1
-            want_n = sum(len(s) for s in segs)
+            want_n = sum(s if v is None else len(v) for v, s in segs)
             if len(got) != want_n:
                 viol.append(("residual-length:%s" % fam, "%sresidual has %d entries, the equations have %d\n%s" % ("initial " if initial else "", len(got), want_n, text), {"text": text}))
                 break
             pos = 0
-            for k, s in enumerate(segs):
+            for k, (s, ordered) in enumerate(segs):
+                if s is None:  # reference undefined for this equation here (a pole); `ordered` holds its length
+                    pos += ordered
+                    stats["skipped"] += 1
+                    continue
                 g = got[pos : pos + len(s)]
                 pos += len(s)
-                if not M.same_multiset(g, s):
-                    eqtxt = " ".join(x.strip() for x in M.peq(eqs[k]))
+                if ordered and len(s) > 1:
+                    stats["ordered"] += 1
+                    stats["asym"] += _asymmetric(eqs[k], env, funcs)
+                if not (same_ordered(g, s) if ordered else M.same_multiset(g, s)):
+                    eqtxt = " ".join(x.strip() for x in M.peq(getattr(model, "printed", eqs)[k] if not initial else eqs[k]))
+                    what = "residual-order" if ordered and M.same_multiset(g, s) else "residual-value"
                     viol.append(
                         (
-                            "residual-value:%s" % fam,
-                            "%sequation `%s`: residual %r, Modelica gives %r at %s"
-                            % ("initial " if initial else "", eqtxt, [round(x, 9) for x in g], [round(float(x), 9) for x in s], _envstr(env)),
+                            "%s:%s" % (what, fam),
+                            "%sequation `%s`: residual %r, Modelica gives %r%s at %s"
+                            % (
+                                "initial " if initial else "",
+                                eqtxt,
+                                [round(x, 9) for x in g],
+                                [round(float(x), 9) for x in s],
+                                " (column-major, element by element)" if ordered else " (as a multiset)",
+                                _envstr(env),
+                            ),
                             {"text": text, "equation": eqtxt},
                         )
                     )
@@ -311,7 +387,15 @@ def check_model(job):
                 break
         if viol:
             break
-    return {"fam": fam, "viol": viol, "points": points, "neq": len(model.eqs) + len(model.init_eqs)}
+    stats["overlap_chains"] = len(stats["overlap_chains"])
+    return {"fam": fam, "viol": viol, "points": points, "neq": len(model.eqs) + len(model.init_eqs), "stats": stats}
+
+
+def _asymmetric(eq, env, funcs):
+    """1 if the equation is between square matrices and its right-hand side is not symmetric at this point (the case
+    in which transposing one side changes the residual)."""
+    r = np.asarray(M.evn(eq[2], env, funcs), dtype=float)
+    return int(r.ndim == 2 and r.shape[0] == r.shape[1] and not np.allclose(r, r.T))
 
 
 def _envstr(env):
@@ -334,15 +418,21 @@ def run(ctx):
     per = {}
     points = neq = 0
     texts = set()
+    stats = {"ordered": 0, "overlap": 0, "overlap_chains": 0, "skipped": 0, "asym": 0}
+    nchains = 0
     for (fam, m), r in zip(models, res):
         per[fam] = per.get(fam, 0) + 1
         points += r["points"]
         neq += r.get("neq", 0)
         texts.add(m.text())
+        nchains += len(getattr(m, "chains", ()))
+        for k, v in r.get("stats", {}).items():
+            stats[k] += v
         for sig, msg, case in r["viol"]:
             ctx.violation(sig, msg, case)
     for i in (0, len(models) // 3, 2 * len(models) // 3, len(models) - 1):
         ctx.sample({"family": models[i][0], "model": models[i][1].text()})
+    nt = len(c11x.THRESHOLDS)
     ctx.coverage.update(
         {
             "evaluations": points,
@@ -351,20 +441,40 @@ def run(ctx):
             "equations": neq,
             "per_family": per,
             "grid_points_per_model": npoints,
+            "grid_points_per_chain_model": 2 * nt + 1,
+            "if_chains": nchains,
+            "if_chains_with_overlap": stats["overlap_chains"],
+            "chain_points_with_two_or_more_true_conditions": stats["overlap"],
+            "array_equations_compared_in_order": stats["ordered"],
+            "square_matrix_equations_with_asymmetric_rhs": stats["asym"],
+            "equation_points_skipped_undefined": stats["skipped"],
             "exhaustive": True,
             "rule": "families enumerated completely within their bounds: all scalar expression trees with <= 2 (quick) / 3 (thorough, "
             "core operators) operator nodes over + - * / ^, unary +/-, six relations, not/and/or, if, sin/abs/max/min as right-hand "
             "sides; array equations; every valid subscript / slice of 1-D arrays of size 1..3 and 2x2, 2x3 matrices on either side; "
             "for-equations over sizes 1..4 with plain, shifted, sub-range, parameter-bound and der() bodies; if-equations with "
-            "every ordered pair of 4 conditions; initial equations; der as input; functions with <= 2 (quick) / 3 statements. "
-            "Each model's residual functions are compared with the reference on %d grid points, top-level equation by "
-            "equation; every distinct model text counts as non-trivial (each has at least one operator, subscript or statement)." % npoints,
+            "every ordered pair of 4 conditions; initial equations; der as input; functions with <= 2 (quick) / 3 statements; "
+            "if / elseif / else chains with every ordered selection of 2..3 conditions from {>, <} (thorough: and >=, <=) x thresholds "
+            "{1, 2, 3} on one variable, as if-statement of a function, if-equation, nested if-expression and elseif-expression (and "
+            "with two assigned variables / equations per branch for the > chains), evaluated with that variable inside each of the "
+            "4 regions between the thresholds and on each threshold; all well-shaped expression trees with <= 2 (quick) / 3 "
+            "(thorough, core operators) operator nodes over unary -, + - .* ./, matrix product, transpose, scalar*matrix, "
+            "matrix*scalar, matrix/scalar with matrices of 2..3 rows and columns and vectors of 2..3 entries as right-hand sides, the "
+            "<= 1-operator ones also as der() equation, initial equation and with sides exchanged; shaped zeros/ones/fill, "
+            "if-expressions between matrices, every row/column slice of those matrices on the left and on both sides. "
+            "Each model's residual functions are compared with the reference on %d grid points (chains: 7), top-level equation by "
+            "equation; every distinct model text counts as non-trivial (each has at least one operator, subscript or statement); "
+            "the counts of chains / chain points at which two or more conditions hold and of square-matrix equations whose "
+            "right-hand side is not symmetric at the point are measured." % npoints,
         }
     )
     ctx.assumptions += [
         "single-class models, so the flat equations are the source equations (flattening itself is C07-C09)",
-        "entries inside one top-level equation (for-loop unrolling order) are compared as a multiset",
-        "grid avoids poles; points where the reference is undefined are skipped",
+        "a plain equation between sides of equal shape is compared element by element in column-major order (the layout of "
+        "the variable vectors and of veccat); entries of for-equations, if-equations and tuple equations are compared as a multiset",
+        "grid avoids poles; equations for which the reference is undefined at a point are skipped at that point",
+        "matrix ^, matrix + scalar without dot, vector*matrix, vector*vector, identity / diagonal, array constructors with "
+        "variable elements and literal matrices are outside the alphabet",
     ]
 
 
@@ -374,10 +484,11 @@ def replay(case):
     text = case["text"]
     print(text)
     # re-find the model among the enumerated ones so the reference tree is available
-    for fam, m in all_models("thorough"):
-        if m.text() == text:
-            r = check_model((fam, m, 0, 8))
-            print([x[1] for x in r["viol"]] or "ok")
-            return not r["viol"]
+    for tier in ("quick", "thorough"):
+        for fam, m in all_models(tier):
+            if m.text() == text:
+                r = check_model((fam, m, 0, 8))
+                print([x[1] for x in r["viol"]] or "ok")
+                return not r["viol"]
     print("model not in the enumeration any more")
     return True
